@@ -410,6 +410,13 @@ class Trace:
         """the queries are also judged in the state in which start()/resume() returned"""
         if self.cluster_only or self.status != 'completed':
             return
+        self.query_now()
+
+    def query_now(self):
+        """judge the idle/empty/finished queries in the current (settled) state: start(runtime=k) / resume(until=n) has
+        just returned, i.e. every event before the current clock value has been processed"""
+        if self.cluster_only:
+            return
         t = istep(self.env.now)
         saved = self.snaps.get(t)
         self.end_of_step(t - 1 if t > 0 else -1)
@@ -736,6 +743,18 @@ def install():
                 rec['queued_at'] = tr.env.now
                 tr.queue.append(obs.name)
                 tr.max_alive['queue'] = max(tr.max_alive.get('queue', 0), len(tr.queue))
+                # C14 inside a simulation: the plan the observation carries when it is handed to the scheduler must mirror
+                # ITS OWN workflow file (shipped BatchPlanning only)
+                a = tr.sc['alg']
+                if a['kind'] in ('batch', 'queue') or (a['kind'] == 'adversary' and a.get('planner', 'batch') == 'batch'):
+                    from .props_comp import check_plan
+                    o = next(x for x in tr.sc['obs'] if x['name'] == obs.name)
+                    tr.count('plans_checked_at_handover')
+                    if obs.plan is None:
+                        tr.V('C14', 'no_plan_at_handover', f"{obs.name} handed to the scheduler without a plan")
+                    else:
+                        for v in check_plan({'wf': o['wf'], 'name': obs.name}, obs.plan):
+                            tr.V('C14', 'sim_' + v['part'], f"{obs.name} handed to the scheduler at {tr.env.now}: " + v['msg'])
         return obs
     Buffer.next_observation_for_processing = next_observation_for_processing
 
